@@ -39,7 +39,7 @@ type OpenSpec struct {
 // OpenCell is one w:tc.
 type OpenCell struct {
 	T      []string `json:"t"`                // one w:p per entry ("" = a paragraph without a run)
-	Span   int      `json:"span,omitempty"`   // w:gridSpan (0 = absent)
+	Span   int      `json:"span,omitempty"`   // w:gridSpan (0 = absent, 1 = written although it is the default)
 	VM     string   `json:"vm,omitempty"`     // restart | continue | empty (<w:vMerge/>, which means continue)
 	NoPr   bool     `json:"nopr,omitempty"`   // the cell has no w:tcPr (only without span / vMerge)
 	Nested int      `json:"nested,omitempty"` // > 0: a nested 1-row table of that many cells precedes the paragraphs
@@ -63,8 +63,9 @@ var tableKinds = []string{"clear", "tstyle", "tstyle"}
 var oddTexts = []string{"", "", " ", "中文", "a<b&c>d", "x\ny", "😀", "dup", "dup", "  lead", "trail  ", "{{x}}"}
 
 type caseGen struct {
-	t *rapid.T
-	k int
+	t   *rapid.T
+	k   int
+	big bool // the start table has ten or more rows or columns
 }
 
 // u draws a uniformly distributed value of 0..n-1. rapid's own integer generators are biased towards small values
@@ -96,16 +97,39 @@ func (g *caseGen) texts(min, max int) []string {
 	return out
 }
 
-// sel draws a selector: negative values and three residues of 32 are the out-of-range classes (see (*exec).sel).
+// endBase: selectors from endBase on count valid indexes from the end (endBase -> n-1, endBase+1 -> n-2, ...; see (*exec).sel).
+const endBase = 1 << 20
+
+// sel draws a selector: negative values and three residues of 32 are the out-of-range classes (see (*exec).sel);
+// every other value is a valid index, counted from the start (any index of a table of up to 96 rows / columns) or,
+// one in sixteen, from the end (the last, the last but one, ...).
 func (g *caseGen) sel() int {
 	if g.u("neg", 39+1) == 0 {
 		return -(1 + g.u("negv", 2-1+1))
 	}
-	return g.u("sel", 32*12-1+1)
+	if g.u("end", 16) == 0 {
+		return endBase + g.u("endk", 4)
+	}
+	return g.u("sel", 32*96-1+1)
+}
+
+// broad draws the two ends of a range that covers the table but for at most two positions at either end (the
+// whole row / column, all but the first, all but the last two, ...), whatever the size of the table is.
+func (g *caseGen) broad() (int, int) {
+	return 32*g.u("bra", 3) + 3, endBase + g.u("brb", 3)
+}
+
+// ends draws the two ends of a range: independent selectors or, one in six (one in three on a table that starts
+// with ten or more rows or columns, where two independent indexes seldom lie ten apart), a broad range.
+func (g *caseGen) ends() (int, int) {
+	if w := g.u("br", 6); w == 0 || (g.big && w == 1) {
+		return g.broad()
+	}
+	return g.sel(), g.sel()
 }
 
 // dlen draws a data-length selector (see (*exec).data): longer than the table, empty, exact, or any shorter length.
-func (g *caseGen) dlen() int { return g.u("dlen", 10*8-1+1) }
+func (g *caseGen) dlen() int { return g.u("dlen", 10*100-1+1) }
 
 func (g *caseGen) inv() int {
 	if g.u("inv", 11+1) == 0 {
@@ -128,7 +152,8 @@ func (g *caseGen) op(k string) Op {
 	case "delrow", "delcol", "eachrow", "eachcol", "rowget":
 		o.I = []int{g.sel()}
 	case "delrows", "delcols", "headerrows":
-		o.I = []int{g.sel(), g.sel()}
+		a, b := g.ends()
+		o.I = []int{a, b}
 		o.F = g.inv()
 	case "inscol":
 		o.I = []int{g.sel(), g.width(), g.dlen()}
@@ -154,9 +179,15 @@ func (g *caseGen) op(k string) Op {
 	case "addlist":
 		o.I = []int{g.sel(), g.sel()}
 		o.S = g.texts(0, 3)
+		if g.u("ll", 12) == 0 { // a list of ten or more items
+			o.S = g.texts(9, 12)
+		}
 		o.F = g.u("lt", 7+1)
 	case "nested":
 		nr, nc := g.u("nr", 3+1), g.u("nc", 3+1)
+		if g.u("nbig", 16) == 0 { // a nested table of ten or more columns
+			nc = 10 + g.u("nbc", 3)
+		}
 		if g.u("nz", 4+1) > 0 { // mostly valid sizes
 			if nr == 0 {
 				nr = 1
@@ -169,19 +200,29 @@ func (g *caseGen) op(k string) Op {
 		o.S = g.texts(0, 4)
 		o.F = pickOf(g, "nw", []int{0, 0, 0, 1, 1, 2})
 	case "mergeh":
-		o.I = []int{g.sel(), g.sel(), g.sel()}
+		a, b := g.ends()
+		o.I = []int{g.sel(), a, b}
 		o.F = g.inv()
 	case "mergev":
-		o.I = []int{g.sel(), g.sel(), g.sel()}
+		a, b := g.ends()
+		o.I = []int{a, b, g.sel()}
 		o.F = g.inv()
-	case "merger", "range":
-		o.I = []int{g.sel(), g.sel(), g.sel(), g.sel()}
+	case "merger":
+		ra, rb := g.ends()
+		ca, cb := g.ends()
+		o.I = []int{ra, rb, ca, cb}
+		o.F = g.inv() | g.inv()<<1
+	case "range":
+		ra, rb := g.ends()
+		ca, cb := g.ends()
+		o.I = []int{ra, ca, rb, cb}
 		o.F = g.inv() | g.inv()<<1
 	case "rowheight":
 		o.I = []int{g.sel(), g.u("h", 60+1)}
 		o.F = g.u("rule", 2+1)
 	case "rowheightrange":
-		o.I = []int{g.sel(), g.sel(), g.u("h", 60+1)}
+		a, b := g.ends()
+		o.I = []int{a, b, g.u("h", 60+1)}
 		o.F = g.inv()
 	case "header", "keeptogether", "keepnext":
 		o.I = []int{g.sel()}
@@ -207,7 +248,9 @@ func (g *caseGen) openText() string {
 	return pickOf(g, "oodd", []string{"", "", "中文", "a<b&c>d", "dup", "dup", "{{x}}"})
 }
 
-// openSpec draws a table as another producer writes it: 1-5 grid columns, 1-5 rows; ragged (some rows with
+// openSpec draws a table as another producer writes it: 1-5 grid columns, 1-5 rows (one in seven: 10-14 grid columns,
+// 2-4 rows, cells that span most of a row - w:gridSpan of two digits -, consecutive rows of one layout and a vertical
+// merge of the widest cell); ragged (some rows with
 // fewer cells than the grid, no row wider than the grid, at least one row as wide as the grid) or full;
 // with or without horizontally merged cells (w:gridSpan); sometimes one vertical merge that is valid in
 // grid terms (continuations written as val="continue" or as the bare <w:vMerge/>), a nested table, cells
@@ -216,6 +259,12 @@ func (g *caseGen) openSpec() *OpenSpec {
 	G, R := 1+g.u("og", 5), 1+g.u("or", 5)
 	mode := g.u("om", 10)
 	ragged, spans := mode < 8, mode >= 6 && mode <= 8
+	wide := g.u("owide", 7) == 0 // a grid of ten or more columns, where w:gridSpan can have two digits
+	if wide {
+		G, R = 10+g.u("owg", 5), 2+g.u("owr", 3)
+		mode = g.u("owm", 10)
+		ragged, spans = mode < 3, true
+	}
 	if ragged {
 		if G < 2 {
 			G = 2 + g.u("og2", 3)
@@ -243,29 +292,55 @@ func (g *caseGen) openSpec() *OpenSpec {
 			widths[short] = 1 + g.u("osw", G-1)
 		}
 	}
+	cell := func() OpenCell {
+		c := OpenCell{T: []string{g.openText()}}
+		switch g.u("op", 10) {
+		case 0:
+			c.T = append(c.T, g.openText())
+		case 1:
+			c.T = []string{""}
+		}
+		return c
+	}
 	for i := 0; i < R; i++ {
 		var row []OpenCell
-		for rem := widths[i]; rem > 0; {
-			c := OpenCell{T: []string{g.openText()}}
-			switch g.u("op", 10) {
-			case 0:
-				c.T = append(c.T, g.openText())
-			case 1:
-				c.T = []string{""}
+		if wide && i > 0 && widths[i] == widths[i-1] && g.u("osame", 2) == 0 {
+			// the layout of the row above (fresh contents): the rows of a vertically merged block look like this
+			for _, a := range o.Rows[i-1] {
+				c := cell()
+				c.Span, c.NoPr = a.Span, a.NoPr
+				row = append(row, c)
 			}
-			if spans && rem >= 2 && g.u("osp", 10) < 3 {
+			o.Rows = append(o.Rows, row)
+			continue
+		}
+		for rem := widths[i]; rem > 0; {
+			c := cell()
+			switch {
+			case wide && rem >= 2 && g.u("ospw", 10) < 3:
+				c.Span = rem - g.u("ospr", min(rem-1, 4)) // most of what is left of the row: 10 or more at the start of a row
+			case spans && rem >= 2 && g.u("osp", 10) < 3:
 				c.Span = 2 + g.u("ospn", min(rem, 3)-1)
-			} else if g.u("onp", 10) < 3 {
+			case g.u("onp", 10) < 3:
 				c.NoPr = true
+			case spans && g.u("osp1", 8) == 0:
+				c.Span = 1 // the default, written explicitly
 			}
 			rem -= c.span()
 			row = append(row, c)
 		}
 		o.Rows = append(o.Rows, row)
 	}
-	if g.u("ovm", 4) == 0 && R >= 2 { // one vertical merge, valid in grid terms
+	if (wide || g.u("ovm", 4) == 0) && R >= 2 { // one vertical merge, valid in grid terms
 		a := g.u("ova", R-1)
 		j := g.u("ovj", len(o.Rows[a]))
+		if wide { // the widest cell of the row
+			for k := range o.Rows[a] {
+				if o.Rows[a][k].span() > o.Rows[a][j].span() {
+					j = k
+				}
+			}
+		}
 		start := func(row []OpenCell, j int) int {
 			s := 0
 			for k := 0; k < j; k++ {
@@ -304,6 +379,19 @@ func genCase(t *rapid.T) Case {
 		Rows:  (1 + g.u("rows", 6-1+1)),
 		Cols:  (1 + g.u("cols", 6-1+1)),
 		Width: pickOf(g, "width", []int{9000, 6000, 100, 0, 8640}),
+	}
+	// sizes past the single digits (and past 16 / 32 / 64), rarely, so that the quick tier stays cheap: a table of ten
+	// or more columns is where a cell can span ten or more grid columns and where an index has two digits
+	switch dim := g.u("dim", 100); {
+	case dim < 11: // wide
+		c.Cols = pickOf(g, "wcols", []int{7, 8, 9, 10, 10, 11, 11, 12, 12, 12, 13, 14, 15, 16, 17, 20, 21})
+		c.Rows = 1 + g.u("wrows", 5)
+	case dim < 12: // very wide
+		c.Cols = pickOf(g, "vwcols", []int{31, 32, 33, 63, 64, 65})
+		c.Rows = 1 + g.u("vwrows", 3)
+	case dim < 17: // tall
+		c.Rows = pickOf(g, "trows", []int{7, 9, 10, 10, 11, 11, 12, 12, 13, 16, 17, 33, 65})
+		c.Cols = 1 + g.u("tcols", 4)
 	}
 	if g.u("src", 5) == 0 && os.Getenv("C09_NOOPEN") != "1" { // a fifth of the cases start from a table read from a file
 		o := g.openSpec()
@@ -356,7 +444,7 @@ func genCase(t *rapid.T) Case {
 	}
 	// the history: three rapid slices (so that the shrinker can drop ops) of together 1..30 ops, 15 on average
 	one := rapid.Custom(func(t *rapid.T) Op {
-		h := &caseGen{t: t, k: g.k}
+		h := &caseGen{t: t, k: g.k, big: c.Rows >= 10 || c.Cols >= 10}
 		var k string
 		switch w := h.u("grp", 100); {
 		case w < 28:
